@@ -16,7 +16,7 @@ hold for every such list.
 
 All arithmetic on sizes and columns is Go uint16 (`UInt16`), including `uint16(char.Width)`.
 Whether the height guards are `>` or `>=` is read from the source (`Gen.SurfaceFacts`), and so are
-the size arguments of the `NewSurface` calls of Center, TextField and Dynamic (`newSurfaceFor`) and
+the size arguments of every `NewSurface` call (`newSurfaceFor`; Text/RichText: `TextMode.sz`) and
 which widgets start with the bounded-constraint panic (`boundedPanic`).
 -/
 import VaxisModel.Model.Surface
@@ -60,6 +60,27 @@ def sizeLoop (strict : Bool) (maxW maxH : UInt16) : List (List Cell) → UInt16 
 def findContainerSize (strict : Bool) (c : Ctx) (lines : List (List Cell)) : UInt16 × UInt16 :=
   sizeLoop strict c.maxW c.maxH lines 0 0
 
+/-! ### the size arguments of NewSurface, as the source has them -/
+
+/-- Evaluate a size argument of a `vxfw.NewSurface` call (`Gen.SurfaceFacts.SzArg`, printed by the
+extractor from the call's argument expression): `size` = what findContainerSize returned, `childH` =
+the height of the child being wrapped.  A shape the extractor does not know evaluates to 0 (and the
+theorems about that widget stop compiling). -/
+def evalSz (c : Ctx) (size : UInt16 × UInt16) (childH : UInt16) : Gen.SurfaceFacts.SzArg → UInt16
+  | .maxW => c.maxW
+  | .maxH => c.maxH
+  | .sizeW => size.1
+  | .sizeH => size.2
+  | .childH => childH
+  | .lit n => UInt16.ofNat n
+  | .other _ => 0
+
+/-- The size arguments of the `k`-th NewSurface call of Go function `fn` in the current source. -/
+def surfaceArgs (fn : String) (k : Nat) : Gen.SurfaceFacts.SzArg × Gen.SurfaceFacts.SzArg :=
+  match (Gen.SurfaceFacts.surfaceSizes.filter fun e => e.1 == fn)[k]? with
+  | some e => e.2
+  | none => (.other "missing", .other "missing")
+
 /-- `var lineWidth int; for _, char := range chars { lineWidth += char.Width }` (Go int). -/
 def lineWidthInt : List Cell → Int
   | [] => 0
@@ -84,6 +105,7 @@ structure TextMode where
   drawStrict : Bool        -- Draw's row guard is `>=`
   ellipsisStyle : Option Nat   -- Text: its own style; RichText: the style of the replaced cell
   fill : Option Nat        -- Text: `s.Fill(t.Style)`; RichText: none
+  sz : Gen.SurfaceFacts.SzArg × Gen.SurfaceFacts.SzArg   -- the size arguments of its `vxfw.NewSurface` call, from the source
 deriving Repr
 
 /-- Inner loop over one line; `tooWide` = `lineWidth > int(ctx.Max.Width)`, computed before the loop. -/
@@ -114,30 +136,9 @@ def drawLines (a : Arith) (m : TextMode) (maxW maxH : UInt16) : List (List Cell)
 /-- Text.Draw / RichText.Draw (either wrap mode) on the scanned lines. -/
 def drawText (a : Arith) (m : TextMode) (c : Ctx) (lines : List (List Cell)) : Except Panic Surface :=
   let size := findContainerSize m.sizeStrict c lines
-  let s := newSurface a size.1 size.2
+  let s := newSurface a (evalSz c size 0 m.sz.1) (evalSz c size 0 m.sz.2)
   let s := match m.fill with | some st => fillStyle s st | none => s
   drawLines a m c.maxW c.maxH lines 0 s
-
-/-! ### the size arguments of NewSurface, as the source has them -/
-
-/-- Evaluate a size argument of a `vxfw.NewSurface` call (`Gen.SurfaceFacts.SzArg`, printed by the
-extractor from the call's argument expression): `size` = what findContainerSize returned, `childH` =
-the height of the child being wrapped.  A shape the extractor does not know evaluates to 0 (and the
-theorems about that widget stop compiling). -/
-def evalSz (c : Ctx) (size : UInt16 × UInt16) (childH : UInt16) : Gen.SurfaceFacts.SzArg → UInt16
-  | .maxW => c.maxW
-  | .maxH => c.maxH
-  | .sizeW => size.1
-  | .sizeH => size.2
-  | .childH => childH
-  | .lit n => UInt16.ofNat n
-  | .other _ => 0
-
-/-- The size arguments of the `k`-th NewSurface call of Go function `fn` in the current source. -/
-def surfaceArgs (fn : String) (k : Nat) : Gen.SurfaceFacts.SzArg × Gen.SurfaceFacts.SzArg :=
-  match (Gen.SurfaceFacts.surfaceSizes.filter fun e => e.1 == fn)[k]? with
-  | some e => e.2
-  | none => (.other "missing", .other "missing")
 
 /-- `vxfw.NewSurface(<width>, <height>, …)` with the two argument expressions of the source. -/
 def newSurfaceFor (a : Arith) (fn : String) (k : Nat) (c : Ctx) (size : UInt16 × UInt16) (childH : UInt16) : Surface :=
@@ -205,12 +206,17 @@ statement of `name`'s Draw: which widgets have it is read from the source
 def boundedPanic (name : String) (c : Ctx) : Bool :=
   Gen.SurfaceFacts.boundedPanicWidgets.contains name && (c.maxH == unbounded || c.maxW == unbounded)
 
+/-- The size arguments findContainerSize's result is allocated with, and the guard that makes the
+result fit: what the size theorems need of a text mode. -/
+def TextMode.sizeOK (m : TextMode) : Prop := m.sizeStrict = true ∧ m.sz = (.sizeW, .sizeH)
+
 /-- Which comparison each height guard uses, from the source. -/
 def textMode (hard : Bool) (st : Nat) : TextMode :=
   { hard := hard
     sizeStrict := if hard then Gen.SurfaceFacts.textSizeHardStrict else Gen.SurfaceFacts.textSizeSoftStrict
     drawStrict := if hard then Gen.SurfaceFacts.textDrawHardStrict else Gen.SurfaceFacts.textDrawSoftStrict
     ell := Gen.SurfaceFacts.textEllipsisCond
+    sz := surfaceArgs (if hard then "text.Text.Draw" else "text.Text.drawSoftwrap") 0
     ellipsisStyle := some st, fill := some st }
 
 def richMode (hard : Bool) : TextMode :=
@@ -218,6 +224,7 @@ def richMode (hard : Bool) : TextMode :=
     sizeStrict := if hard then Gen.SurfaceFacts.richSizeHardStrict else Gen.SurfaceFacts.richSizeSoftStrict
     drawStrict := if hard then Gen.SurfaceFacts.richDrawHardStrict else Gen.SurfaceFacts.richDrawSoftStrict
     ell := Gen.SurfaceFacts.richEllipsisCond
+    sz := surfaceArgs (if hard then "richtext.RichText.Draw" else "richtext.RichText.drawSoftwrap") 0
     ellipsisStyle := none, fill := none }
 
 /-- Center.Draw around an already drawn child. -/
